@@ -204,6 +204,13 @@ package layer4
 //@ ensures[C13] !isnil(ctxval(conn.Context, VarsCtxKey).(map[string]any)["tls_connection_states"]) && len(tlsstates(conn)) > 0 ==> istype(lastsent(l.connChan), *tlsConnection) && lastsent(l.connChan).(*tlsConnection).Conn == conn && lastsent(l.connChan).(*tlsConnection).connState == tlsstates(conn)[len(tlsstates(conn))-1]
 //@ ensures[ghost] escaped(arr(conn.buf))
 
+// The first deferred function of handle: a connection that was not handed over (the route did not
+// report the hijack sentinel) is closed (C13: consumed or rejected connections are closed).
+//@ func (l *listener) handle$1()
+//@ requires l != nil && l.wg != nil && !isnil(conn)
+//@ safety C13
+//@ ensures[C13] !errIs(err, errHijacked) ==> !isopen(conn)
+
 //@ func (l *listener) handle(conn net.Conn)
 //@ requires l != nil && conn != nil && l.compiledRoute != nil && l.logger != nil && l.wg != nil
 //@ requires 0 <= rpos(conn) && rpos(conn) < 4611686018427387904
